@@ -12,7 +12,7 @@ def run(e):
         dst=os.path.join(tmp,"repo"); shutil.copytree("/repo",dst,ignore=shutil.ignore_patterns(".git"))
         p=subprocess.run(["patch","-p1","-s","--no-backup-if-mismatch","-i",os.path.join(V,"benign",e["file"])],cwd=dst,capture_output=True,text=True)
         if p.returncode!=0: return e["name"],"skipped",[p.stdout+p.stderr]
-        b=subprocess.run("go build -trimpath ./... && go test -trimpath -count=1 -run '^$' ./... >/dev/null",shell=True,cwd=dst,env=ENV,capture_output=True,text=True)
+        b=subprocess.run("go build -trimpath ./... && go test -trimpath -count=1 -exec /bin/true ./... >/dev/null",shell=True,cwd=dst,env=ENV,capture_output=True,text=True)
         if b.returncode!=0: return e["name"],"nobuild",[(b.stdout+b.stderr)[-300:]]
         alarms=[]
         for prop in PROPS:
